@@ -246,6 +246,21 @@ func Main(tier, replay string) {
 								want = append(want, ro.Ctl+"."+ro.Method)
 							}
 						}
+						// a request for exactly the text of a parameter-less annotated path is addressed to that route, even if a
+						// parameterised sibling could match it too
+						overlapShape := ""
+						for li, ro := range rs {
+							if ro.Verb == rq.Verb && !strings.Contains(ro.Template, "{") && ro.Template == strings.SplitN(rq.URL, "?", 2)[0] && len(want) > 1 {
+								want = []string{ro.Ctl + "." + ro.Method}
+								overlapShape = "literal-route-declared-before-its-overlapping-parameter-routes"
+								for oi, other := range rs {
+									if oi < li && other.Verb == rq.Verb && matches(other.Template, rq.URL) {
+										// registration follows declaration order, and first-match engines then prefer the earlier route
+										overlapShape = "literal-route-declared-after-an-overlapping-parameter-route"
+									}
+								}
+							}
+						}
 						var calls, auths []string
 						for _, ev := range resp.Events {
 							if strings.HasPrefix(ev, "CALL ") {
@@ -296,6 +311,9 @@ func Main(tier, replay string) {
 							shape := "other"
 							if strings.Contains(rawTemplate(c, want[0]), "//") {
 								shape = "doubled-slash-in-raw-concatenation"
+							}
+							if overlapShape != "" {
+								shape = overlapShape
 							}
 							run.Report(core.Violation{Oracle: "annotated-route-reaches-its-method", Features: feat("raw-template", shape), What: fmt.Sprintf("%s %s must reach %s but reached %v (status %d, body %.80q)", rq.Verb, rq.URL, want[0], calls, resp.Status, resp.Body), Case: c})
 						case len(want) > 1 && (len(calls) != 1 || !contains(want, calls[0])):
